@@ -178,3 +178,6 @@ def install():
     B._readFromBuffer = _readFromBuffer
     B.seek = bseek
     Bin.changeEncoding = changeEncoding
+    from . import coldstate
+    for cls in (U, B, Bin):
+        coldstate.accept_current(cls)
